@@ -90,8 +90,8 @@ func ZZ_C19_save_load() {
 		panic(err)
 	}
 	raw, _ := priv.Raw()
-	p := zzsym.Bytes("pass", 3)
-	p2 := zzsym.Bytes("pass2", 3)
+	p := zzsym.Bytes("pass", zzC19PassBytes)
+	p2 := zzsym.Bytes("pass2", zzC19PassBytes)
 	same := bytes.Equal(p, p2)
 	// the key may be saved on one host and loaded on another (or under another CPU quota)
 	cpus := []int{1, 2, 4, 8}
@@ -234,7 +234,7 @@ func ZZ_C19_export_import() {
 			zzsym.Assert(ImportPrivateKey(target, fr, []byte("fp")) == nil, "import-ok")
 		}
 	}
-	p := zzsym.Bytes("new", 3)
+	p := zzsym.Bytes("new", zzC19PassBytes)
 	zzsym.Assert(ImportPrivateKey(target, append([]byte(nil), exp...), append([]byte(nil), p...)) == nil, "re-import-ok")
 	s, err := LoadFileSystemSigner(target, append([]byte(nil), p...))
 	zzsym.Assert(err == nil && s != nil, "imported-key-loads-with-its-passphrase")
@@ -243,7 +243,7 @@ func ZZ_C19_export_import() {
 	}
 	exp2, err := ExportPrivateKey(target, append([]byte(nil), p...))
 	zzsym.Assert(err == nil && bytes.Equal(exp2, raw), "re-export-returns-the-key")
-	p2 := zzsym.Bytes("wrong", 3)
+	p2 := zzsym.Bytes("wrong", zzC19PassBytes)
 	if !bytes.Equal(p, p2) {
 		_, err := LoadFileSystemSigner(target, append([]byte(nil), p2...))
 		zzsym.Assert(err != nil, "wrong-passphrase-never-loads")
